@@ -28,7 +28,7 @@ LEVEL = "exploration"
 RUNS = {"quick": 40000, "thorough": 1000000}
 WALL = {"quick": 240, "thorough": 1500}
 PARTITIONS = [{"name": "default", "env": {}}]
-FAULT_KINDS = ["bulk_batch", "lossy_conversion_probe", "narrowing_probe", "mixed_dtype_arith", "float_weight_into_int",
+FAULT_KINDS = ["masked_array_assigned", "bulk_batch", "lossy_conversion_probe", "narrowing_probe", "mixed_dtype_arith", "float_weight_into_int",
                "int_float_subtraction", "refused_int_with_float_weights", "dtype_setter"]
 RULE = ("one run = 1-3 live histograms (1-2 D) created with dtypes drawn from all seven supported types, then a "
         "seeded history (<= 12) of fill / fill_n (int, float weights) / + / - / * / / / normalize / merge_bins / "
@@ -109,7 +109,12 @@ def generate(rng, seed, part):
             nodes += 1
         elif r < 0.70:
             ops.append({"op": "assign", "a": a, "what": rng.choice(["frequencies", "errors2"]),
-                        "values": rng.choice(["quarter", "double_int", "float32", "same"])})
+                        "values": rng.choice(["quarter", "double_int", "float32", "same", "masked_fraction",
+                                              "masked_big"])})
+            if ops[-1]["values"].startswith("masked"):
+                # ... and then the request the hidden value must make fail
+                ops.append({"op": "set_dtype", "a": a, "to": rng.choice(["int64", "int32", "int16"]),
+                            "via": rng.choice(["method", "setter"]), "prep": None})
         elif r < 0.73 and ndim == 2:
             ops.append({"op": "accumulate", "a": a, "axis": rng.choice([0, 1]), "out": nodes})
             nodes += 1
@@ -395,8 +400,18 @@ def execute(plan, ctx):
                 nodes[op["out"]] = res
         elif o == "assign":
             f = np.asarray(getattr(a, op["what"]))
-            vals = {"quarter": f * 0.25, "double_int": (f * 2), "float32": f.astype(np.float32) * 0.5,
-                    "same": f.copy()}[op["values"]]
+            if op["values"].startswith("masked"):
+                # a masked array (e.g. out of a numpy.ma computation): its data are the contents, mask or not
+                data = f.astype(np.float64).copy()
+                mask = np.zeros(data.shape, dtype=bool)
+                if data.size:
+                    data.reshape(-1)[0] = data.reshape(-1)[0] + (0.5 if op["values"] == "masked_fraction" else 90000.0)
+                    mask.reshape(-1)[0] = True
+                vals = np.ma.masked_array(data, mask=mask)
+                ctx.fault("masked_array_assigned")
+            else:
+                vals = {"quarter": f * 0.25, "double_int": (f * 2), "float32": f.astype(np.float32) * 0.5,
+                        "same": f.copy()}[op["values"]]
 
             def do_assign():
                 setattr(a, op["what"], vals)
@@ -408,7 +423,7 @@ def execute(plan, ctx):
                 continue
             consistent(ctx, a, f"assign-{op['what']}")
             got = np.asarray(getattr(a, op["what"]), dtype=np.float64)
-            if not np.allclose(got, np.asarray(vals, dtype=np.float64), rtol=1e-6, atol=0):
+            if not np.allclose(got, np.asarray(np.ma.getdata(vals), dtype=np.float64), rtol=1e-6, atol=0):
                 ctx.violation("C13/no-truncation", f"C13/assignment-truncated/{op['what']}/{pre_dtype}",
                               f"h.{op['what']} = {np.asarray(vals).tolist()} on dtype {pre_dtype} stored {got.tolist()}")
         elif o == "accumulate":
